@@ -719,17 +719,19 @@ pub trait Signum: Copy {
     fn signum(self) -> Self;
 }
 
-macro_rules! impl_signum {
-    ($type:ident) => {
-        impl Signum for $type {
-            fn signum(self) -> Self {
-                $type::signum(self)
-            }
-        }
-    };
+impl Signum for i32 {
+    fn signum(self) -> Self {
+        i32::signum(self)
+    }
 }
-impl_signum!(i32);
-impl_signum!(f32);
+
+impl Signum for f32 {
+    fn signum(self) -> Self {
+        // `f32::signum` returns +/-1 for +/-0, but the Sign operator must
+        // return zero for zero inputs.
+        if self == 0. { self } else { f32::signum(self) }
+    }
+}
 
 declare_operator!(Sign);
 impl_operator!(Sign, [FloatTensor, Int32Tensor]);
@@ -1186,7 +1188,11 @@ mod tests {
         );
     }
 
-    test_unary_op!(test_sign, Sign {}, |x: &f32| x.signum());
+    test_unary_op!(test_sign, Sign {}, |x: &f32| if *x == 0. {
+        0.
+    } else {
+        x.signum()
+    });
 
     fn reference_sigmoid(x: f32) -> f32 {
         1. / (1. + (-x).exp())
